@@ -138,6 +138,9 @@ pub fn cmd_e1(args: &Args) -> i32 {
     let mut runs_with_variants = 0u64;
     let mut input_changes = 0u64;
     let mut concurrent_ops = 0u64;
+    let mut faults_planned = 0u64;
+    let mut faults_fired = 0u64;
+    let mut bb_ops = 0u64;
     let mut variant_kinds: BTreeMap<String, u64> = BTreeMap::new();
     let mut last = start;
     let mut code = 0;
@@ -183,6 +186,17 @@ pub fn cmd_e1(args: &Args) -> i32 {
             }
         }
         concurrent_ops += plan.history.iter().filter(|h| h.with.is_some()).count() as u64;
+        bb_ops += plan.history.iter().filter(|h| h.bb).count() as u64;
+        for (h, (o, _)) in plan.history.iter().zip(r.outcomes.iter()) {
+            if crate::c09::fault_of(&plan, h).is_some() {
+                faults_planned += 1;
+                if let vcore::Outcome::Panic(m) = o {
+                    if m.starts_with("verif: injected") {
+                        faults_fired += 1;
+                    }
+                }
+            }
+        }
         let mut nontrivial = false;
         for (h, (ih, sh, leaves)) in plan.history.iter().zip(r.op_hashes.iter().chain(std::iter::repeat(&(0, 0, 0)))) {
             let _ = h;
@@ -284,6 +298,9 @@ pub fn cmd_e1(args: &Args) -> i32 {
         .set("runs_with_input_variants", J::u(runs_with_variants))
         .set("input_changes_between_ops", J::u(input_changes))
         .set("concurrent_op_pairs", J::u(concurrent_ops))
+        .set("faults_planned", J::u(faults_planned))
+        .set("faults_fired", J::u(faults_fired))
+        .set("bb_ops", J::u(bb_ops))
         .set("variant_kinds", J::Obj(variant_kinds.into_iter().map(|(k, v)| (k, J::u(v))).collect()))
         .set("simulated_clock_reads", J::u(sim_rayon::clock::reads()))
         .set("wall_s", J::Num(wall))
